@@ -233,6 +233,134 @@ theorem logon_reset_received (s : Sess) (m : InMsg) (hi : s.cfg.initiator = fals
     obtain ⟨extra, hx, _⟩ := hrel.log
     rw [hx]; simp [this]
 
+
+/-! ## EnableNextExpectedMsgSeqNum: tag 789 of our Logons, the peer's tag 789 -/
+
+theorem mem_nxTag (l : Fields) (n : Int) : (789, toString n) ∈ l ++ nxTag (some n) := by simp [nxTag]
+
+theorem logonMsgX_mem789 (s : Sess) (reset : Bool) (n : Int) : (789, toString n) ∈ (logonMsgX s reset (some n)).f := by
+  unfold logonMsgX mkOut; exact mem_nxTag _ n
+
+theorem logonMsgX_no789 (s : Sess) (reset : Bool) : (logonMsgX s reset none).f.get? 789 = none := by
+  unfold logonMsgX mkOut Fields.get? nxTag
+  cases reset <;> by_cases h : s.cfg.applVer.isEmpty = true <;> simp [h, List.find?]
+
+/-- the acceptor's reply without the reset flag: numbered with the next outbound number, nothing else in the store changes -/
+theorem sendLogonRe_plain (s : Sess) (m : InMsg) :
+    let reply : OutMsg := { stamp s ((logonMsgRe s false m).inReplyTo m) with seq := s.store.sender }
+    let s' := sendLogonRe s false m
+    s'.store.sender = s.store.sender + 1 ∧ s'.store.target = s.store.target ∧ s'.store.epoch = s.store.epoch
+    ∧ s'.store.msgs = (if s.cfg.persist then (s.store.sender, reply) :: s.store.msgs else s.store.msgs)
+    ∧ s'.sentReset = s.sentReset ∧ s'.cfg = s.cfg ∧ s'.st = s.st ∧ s'.out = s.out
+    ∧ (s.out = true → s'.log = .wire reply :: (if s.cfg.persist then .saved s.store.sender "A" (resendable reply) else .incS) :: s.log
+                      ∧ s'.toSend = []) := by
+  intro reply s'
+  have hkA : (logonMsgRe s false m).kind = "A" := rfl
+  have hk : isAdminKind (stamp s ((logonMsgRe s false m).inReplyTo m)).kind = true := by
+    rw [stamp_kind, inReplyTo_kind, hkA]; decide
+  have h141 : ((logonMsgRe s false m).inReplyTo m).f.get? 141 = none := logonMsgX_no141 s _
+  have hr : ((stamp s ((logonMsgRe s false m).inReplyTo m)).kind == "A" && (stamp s ((logonMsgRe s false m).inReplyTo m)).f.get? 141 == some "Y") = false := by
+    rw [stamp_f, h141]; simp
+  have : s' = sendQueued ((s.persistOut s.store.sender reply).setToSend [reply]) := by
+    show dropAndSend s ((logonMsgRe s false m).inReplyTo m) = _
+    unfold dropAndSend prep prepCore
+    simp only [hk, hr, if_true, Bool.false_eq_true, if_false]
+    rfl
+  rw [this]
+  unfold sendQueued Sess.persistOut
+  cases hp : s.cfg.persist <;> cases ho : s.out <;>
+    simp [Sess.setToSend, Sess.emit, hp, ho, reply, hkA]
+
+/-- the evaluation of the peer's tag 789 never touches the store, the configuration, the state or `sentReset` -/
+theorem nxEval_frame (s : Sess) (m : InMsg) (ns : Int) :
+    (nxEval s m ns).store = s.store ∧ (nxEval s m ns).cfg = s.cfg ∧ (nxEval s m ns).st = s.st
+    ∧ (nxEval s m ns).sentReset = s.sentReset ∧ (nxEval s m ns).out = s.out ∧ (nxEval s m ns).hb = s.hb := by
+  have he : ∀ o : OutMsg, (enqueueAndSend s o).store = s.store ∧ (enqueueAndSend s o).cfg = s.cfg ∧ (enqueueAndSend s o).st = s.st
+      ∧ (enqueueAndSend s o).sentReset = s.sentReset ∧ (enqueueAndSend s o).out = s.out ∧ (enqueueAndSend s o).hb = s.hb := by
+    intro o
+    unfold enqueueAndSend sendQueued
+    simp only []
+    repeat' split
+    all_goals exact ⟨rfl, rfl, rfl, rfl, rfl, rfl⟩
+  unfold nxEval
+  repeat' split
+  all_goals first | exact he _ | exact ⟨rfl, rfl, rfl, rfl, rfl, rfl⟩
+
+/-- when nothing is to be done: the option off, a Logon carrying tag 141, no readable 789, or a 789 equal to our number -/
+theorem nxEval_quiet (s : Sess) (m : InMsg) (ns : Int)
+    (h : s.cfg.nextExpected = false ∨ m.f.has 141 = true ∨ peerNext m = none ∨ peerNext m = some ns) : nxEval s m ns = s := by
+  unfold nxEval
+  rcases h with h | h | h | h
+  · rw [h]; rfl
+  · rw [h]; simp
+  · rw [h]; simp
+  · rw [h]; simp
+
+/-- the implied gap fill: the option on, no tag 141, a readable 789 different from our number -/
+theorem nxEval_fill (s : Sess) (m : InMsg) (ns n : Int) (h1 : s.cfg.nextExpected = true) (h2 : m.f.has 141 = false)
+    (h3 : peerNext m = some n) (h4 : n ≠ ns) : nxEval s m ns = enqueueAndSend s (gapFillRe s m n s.store.sender) := by
+  unfold nxEval
+  rw [h1, h2, h3]
+  simp [h4]
+
+theorem nxEval_log (s : Sess) (m : InMsg) (ns : Int) : ∃ pre, (nxEval s m ns).log = pre ++ s.log := by
+  have hq : ∀ x : Sess, ∃ pre, (sendQueued x).log = pre ++ x.log := by
+    intro x; unfold sendQueued; split
+    · exact ⟨_, rfl⟩
+    · exact ⟨[], rfl⟩
+  have he : ∀ (x : Sess) (o : OutMsg), ∃ pre, (enqueueAndSend x o).log = pre ++ x.log := by
+    intro x o; unfold enqueueAndSend; simp only []
+    split <;> exact hq _
+  unfold nxEval
+  repeat' split
+  all_goals first | exact he _ _ | exact ⟨[], rfl⟩
+
+/-- with a connection the gap fill is the last thing written; what was queued goes out in front of it when logged on and is
+    dropped from the wire queue otherwise (EnqueueBytesAndSend) -/
+theorem enqueueAndSend_log (s : Sess) (o : OutMsg) (ho : s.out = true) :
+    (enqueueAndSend s o).log = Obs.wire o :: ((if s.st.loggedOn then s.toSend else []).map Obs.wire).reverse ++ s.log
+    ∧ (enqueueAndSend s o).toSend = [] := by
+  unfold enqueueAndSend sendQueued
+  cases hl : s.st.loggedOn <;> simp [Sess.setToSend, ho]
+
+/-- a Logon that passes every gate, asks for no reset (or is the echo of ours) and is not below the expected number reaches
+    the tail of `handleLogon` with nothing changed but the callback observations -/
+theorem handleLogon_passes (s : Sess) (m : InMsg)
+    (h5 : (s.cfg.bs == 5 && !m.f.has 1137) = false) (hg : GateMsg s.cfg m) (ht : TimeGate s m)
+    (hv : callbackVerdict m = none) (hro : (if s.cfg.initiator then false else s.cfg.resetOnLogon) = false)
+    (hf : logonResetFlag m = false ∨ s.sentReset = true) (n : Int) (h34 : getInt m 34 = .val n) (hge : s.store.target ≤ n) :
+    ∃ s2 : Sess, s2.cfg = s.cfg ∧ s2.st = s.st ∧ s2.store = s.store ∧ s2.sentReset = s.sentReset ∧ s2.out = s.out
+      ∧ s2.toSend = s.toSend ∧ s2.hb = s.hb ∧ (∃ pre, s2.log = pre ++ s.log ∧ ∀ o ∈ pre, o = cbObs s m ∨ o = Obs.refresh)
+      ∧ handleLogon s m = logonTail s2 m := by
+  generalize hs1 : (if (!s.cfg.initiator && s.cfg.refreshOnLogon) = true then s.emit Obs.refresh else s) = s1
+  have a1 : s1.cfg = s.cfg ∧ s1.st = s.st ∧ s1.store = s.store ∧ s1.sentReset = s.sentReset ∧ s1.out = s.out ∧ s1.toSend = s.toSend
+      ∧ s1.hb = s.hb ∧ ∃ pre, s1.log = pre ++ s.log ∧ ∀ o ∈ pre, o = Obs.refresh := by
+    rw [← hs1]; split
+    · exact ⟨rfl, rfl, rfl, rfl, rfl, rfl, rfl, [.refresh], rfl, by simp⟩
+    · exact ⟨rfl, rfl, rfl, rfl, rfl, rfl, rfl, [], rfl, by simp⟩
+  obtain ⟨c1, c2, c3, c4, c5, c6, c7, pre1, l1, p1⟩ := a1
+  have hcb : cbObs s1 m = cbObs s m := by unfold cbObs; rw [c3]
+  have e1 : verifyAppImpl s1 m = (s1.emit (cbObs s1 m), none) := by rw [verifyAppImpl_pass s1 m (by rw [c1]; exact hg.valid), hv]
+  have hreset : ((if (s1.emit (cbObs s1 m)).cfg.initiator = true then false else (s1.emit (cbObs s1 m)).cfg.resetOnLogon)
+      || logonResetFlag m && !(s1.emit (cbObs s1 m)).sentReset) = false := by
+    show ((if s1.cfg.initiator = true then false else s1.cfg.resetOnLogon) || logonResetFlag m && !s1.sentReset) = false
+    rw [c1, hro, c4]
+    rcases hf with hf | hf <;> rw [hf] <;> simp
+  have e2 : verifySelect (s1.emit (cbObs s1 m)) m false true false = (s1.emit (cbObs s1 m), none) := by
+    rw [verifySelect_complete _ m false true false (by show BeginOK s1.cfg m; rw [c1]; exact hg.begin)
+      (by show CompOK s1.cfg m; rw [c1]; exact hg.comp) (timeGate_congr m (by show s1.st = s.st; exact c2) (by show s1.cfg = s.cfg; exact c1) ht)
+      ⟨fun _ => ⟨n, h34, by show s1.store.target ≤ n; rw [c3]; exact hge⟩, fun h => by cases h⟩]
+    rfl
+  refine ⟨s1.emit (cbObs s1 m), c1, c2, c3, c4, c5, c6, c7, ⟨cbObs s1 m :: pre1, by show _ :: s1.log = _; rw [l1]; rfl, ?_⟩, ?_⟩
+  · intro o ho
+    simp only [List.mem_cons] at ho
+    rcases ho with rfl | ho
+    · exact Or.inl hcb
+    · exact Or.inr (p1 o ho)
+  · unfold handleLogon
+    rw [if_neg (by rw [h5]; simp), hs1]
+    simp only [e1, hreset, Bool.false_eq_true, if_false, e2]
+
 theorem logonFixMsgIn_of_ok (s : Sess) (m : InMsg) (hk : kindOf m = "A") (h : (handleLogon s m).2 = none) :
     logonFixMsgIn s m = ((handleLogon s m).1, .inSession) := by
   unfold logonFixMsgIn
